@@ -182,7 +182,7 @@ def parse_assumptions(out: str, names):
         if "Closed under the global context" in body:
             res[name] = []
         else:
-            ax = re.findall(r"^([A-Za-z_][A-Za-z0-9_.']*)\s*:", body, flags=re.M)
+            ax = [a for a in re.findall(r"^([A-Za-z_][A-Za-z0-9_.']*)\s*:", body, flags=re.M) if a != "Axioms"]
             res[name] = sorted(set(ax)) if ax else None
     return res
 
@@ -317,7 +317,7 @@ class Check:
     def _ensure_imports(self, imports):
         """(Re)build the compiled model files a generated file imports, so they reflect the current .v sources."""
         mods = []
-        for m in re.finditer(r"From BlackIt Require (?:Import|Export) ([^.]*(?:\.[A-Za-z0-9_]+)*)\.", imports):
+        for m in re.finditer(r"From BlackIt Require (?:Import|Export)\s+((?:[A-Za-z0-9_]+(?:\.[A-Za-z0-9_]+)*\s*)+)\.(?:\s|$)", imports):
             mods += m.group(1).split()
         targets = [x.replace(".", "/") + ".vo" for x in mods]
         key = tuple(targets)
